@@ -5,18 +5,24 @@
 (* Implementation-shaped model of one manifest file on one replica:        *)
 (* internal/cluster/filereplication/puller.go (processEntry, pullOnce,     *)
 (* tryResumeFromPartial, writeFileTail, deleteFile), fetch_client.go       *)
-(* (Fetch) and the four LocalBackend operations it relies on (StatFile,    *)
-(* ReadToAt, WriteReader, AppendReader, Delete) AS THEY ARE WRITTEN:       *)
+(* (Fetch) and the LocalBackend operations it relies on (StatFile, Exists, *)
+(* ReadToAt, WriteReader, AppendReader, Delete) as they are written:       *)
 (*   - StatFile answers with the size of "<path>.part" when the final      *)
 (*     path is absent;                                                     *)
-(*   - the pre-pull check is "StatFile == SizeBytes";                      *)
+(*   - the pre-pull check is "StatFile == SizeBytes AND the file exists at *)
+(*     its final path" (Fix contains "exists"; before /repo 11c4172 it was *)
+(*     the size comparison alone: Fix without "exists", kept as the        *)
+(*     negative-control configurations NC_presence / NC_converge);         *)
 (*   - attempt 1 of a processEntry run never resumes, attempts > 1 resume  *)
 (*     when 0 < StatFile < SizeBytes;                                      *)
 (*   - WriteReader opens "<path>.part" with O_TRUNC before the first body  *)
 (*     byte (and even when the fetch fails before any byte);               *)
 (*   - promotion (rename .part -> final) happens only when Fetch returned  *)
 (*     nil, i.e. after the SHA-256 over prefix+tail matched;               *)
-(*   - deleteFile -> Backend.Delete removes the FINAL path only.           *)
+(*   - deleteFile -> Backend.Delete removes the FINAL path only;           *)
+(*   - running out of attempts is a failure also when the last attempt     *)
+(*     found no candidate peers (Fix contains "nopeer_fails"; before /repo *)
+(*     bd40fd9 that path left failed = FALSE: negative control NC_gate).   *)
 (* A file is Size units long; a unit is one byte (or one block) of the     *)
 (* real file.  "ok" of a staging file = it is a prefix of the good bytes.  *)
 (* One scripted outcome is consumed per attempt at the PeerResolver call.  *)
@@ -29,7 +35,7 @@ EXTENDS Integers, Sequences, FiniteSets, TLC, Json
 CONSTANTS Sizes,        \* set of file sizes in units
           MaxScript,    \* maximal number of scripted (faulty or not) outcomes
           Retry,        \* RetryMaxAttempts
-          Fix,          \* set of repairs applied to the model; {} = code as written;
+          Fix,          \* repairs present in the code; {"exists","nopeer_fails"} = /repo now; {} = as first written;
                         \*   "exists"       presence needs the file at its final path
                         \*   "nopeer_fails" running out of attempts on "no candidate peers" is a failure
           Emit
